@@ -14,7 +14,7 @@ const ARCHIVE_BUCKET: &str = "noaa-nexrad-level2";
 const REALTIME_BUCKET: &str = "unidata-nexrad-level2-chunks";
 const T0: i64 = 1_723_552_410_000; // 2024-08-13T12:33:30Z
 
-pub const LIST_FAULTS: [&str; 9] = ["normal", "is_truncated_true", "size_abc", "size_minus_1", "size_2^64", "garbled_xml", "order_size_first", "order_key_last", "empty_body"];
+pub const LIST_FAULTS: [&str; 12] = ["normal", "is_truncated_true", "size_abc", "size_minus_1", "size_2^64", "garbled_xml", "order_size_first", "order_key_last", "empty_body", "enc_pretty_printed", "enc_numeric_char_refs", "enc_owner_elements_pretty"];
 pub const NAME_ALPHABET: [&str; 10] = ["KDMX20240813_123330_V06", "KDMX20240813_1233&30", "KDMX20240813_<123330>", "KDMX20240813_\"q\"'a'", "KDMX20240813_é", "KDMX20240813_日本", "LONG", "sub/KDMX20240813_nested", "KDMX20240813_]]>x", "KDMX20240813_a b"];
 const SIZES: [&str; 4] = ["0", "1", "4294967296", "18446744073709551615"];
 
@@ -103,6 +103,9 @@ fn check_list(ctx: &Ctx, sim: &Sim, rt: &tokio::runtime::Runtime, c: &ListCase, 
                         }
                         6 => order = 1,
                         7 => order = 2,
+                        9 => order = 3,
+                        10 => order = 4,
+                        11 => order = 6,
                         _ => {}
                     }
                     let _ = &served;
@@ -175,7 +178,7 @@ fn check_list(ctx: &Ctx, sim: &Sim, rt: &tokio::runtime::Runtime, c: &ListCase, 
             let expected_err = size_fault_applies || truncated_archive;
             if e == "IDENTIFIER_FIELDS" {
                 ctx.fail(&format!("{api}:identifier_site_or_volume"), || format!("{:?}", c), wit);
-            } else if !expected_err && matches!(c.fault, 0 | 1 | 6 | 7) {
+            } else if !expected_err && matches!(c.fault, 0 | 1 | 6 | 7 | 9 | 10 | 11) {
                 ctx.fail(&format!("{api}:error_on_well_formed_listing:fault={fault}"), || format!("{:?}: {e}", c), wit);
             } else if truncated_archive && !size_fault_applies && !e.contains("TruncatedListObjectsResponse") {
                 ctx.fail("list_files:truncated_listing_wrong_error", || format!("{:?}: {e}", c), wit);
@@ -188,7 +191,7 @@ fn check_list(ctx: &Ctx, sim: &Sim, rt: &tokio::runtime::Runtime, c: &ListCase, 
                 ctx.fail("list_files:truncated_listing_accepted", || format!("{:?}: {} identifiers returned from a truncated listing", c, names.len()), wit);
             } else if size_fault_applies {
                 ctx.fail(&format!("{api}:unparsable_size_accepted:{fault}"), || format!("{:?}", c), wit);
-            } else if matches!(c.fault, 0 | 1 | 6 | 7) {
+            } else if matches!(c.fault, 0 | 1 | 6 | 7 | 9 | 10 | 11) {
                 if names != exp_names {
                     let nested = served.iter().any(|o| o.key[prefix.len()..].trim_start_matches('/').contains('/'));
                     let sig = if names.len() != exp_names.len() {
@@ -224,8 +227,8 @@ fn check_list(ctx: &Ctx, sim: &Sim, rt: &tokio::runtime::Runtime, c: &ListCase, 
 
 // ---- downloads ---------------------------------------------------------------------------------
 
-pub const STATUSES: [u16; 8] = [200, 204, 206, 400, 403, 404, 500, 503];
-pub const LM_FORMS: [&str; 3] = ["present", "absent", "malformed"];
+pub const STATUSES: [u16; 13] = [200, 204, 206, 301, 302, 304, 400, 403, 404, 416, 429, 500, 503];
+pub const LM_FORMS: [&str; 4] = ["present", "absent", "malformed", "present_lowercase_header_name"];
 
 #[derive(Clone, Debug)]
 struct GetCase {
@@ -282,13 +285,14 @@ fn check_get(ctx: &Ctx, sim: &Sim, rt: &tokio::runtime::Runtime, c: &GetCase, st
             l.parsed.push(req.clone());
             let body = match status {
                 200 | 206 => data.clone(),
-                204 => vec![],
+                204 | 304 => vec![],
                 404 => not_found_xml("k").into_bytes(),
                 _ => error_xml("Simulated").into_bytes(),
             };
             let mut r = Response::new(status, body);
             match lm {
                 0 => r = r.header("Last-Modified", &http_date(T0)),
+                3 => r = r.header("last-modified", &http_date(T0)).header("x-amz-request-id", "ABC").header("ETag", "\"abc\""),
                 2 => r = r.header("Last-Modified", "yesterday at noon"),
                 _ => {}
             }
@@ -345,7 +349,7 @@ fn check_get(ctx: &Ctx, sim: &Sim, rt: &tokio::runtime::Runtime, c: &GetCase, st
                     ctx.fail(&format!("{api}:bytes_differ:short_body={}", c.short_body), || format!("{:?}: {} bytes returned, {} stored", c, bytes.len(), data.len()), wit);
                 }
                 if let Some(t) = time {
-                    let exp = if c.lm == 0 { Some(T0) } else { None };
+                    let exp = if c.lm == 0 || c.lm == 3 { Some(T0) } else { None };
                     if c.lm != 2 && t != exp || (c.lm == 2 && t.is_some() && t != Some(T0)) {
                         ctx.fail(&format!("{api}:last_modified:{}", LM_FORMS[c.lm]), || format!("{:?}: {:?} expected {:?}", c, t, exp), wit);
                     }
@@ -464,7 +468,7 @@ pub fn run(ctx: &'static Ctx) -> (&'static str, Value, Vec<&'static str>) {
         for name in 0..if realtime { RT_NAMES.len() } else { DL_SUFFIXES.len() } {
             for &size in &sizes {
                 for &status in &STATUSES {
-                    for lm in 0..3 {
+                    for lm in 0..4 {
                         for short_body in [false, true] {
                             if short_body && (status != 200 || lm != 0) {
                                 continue;
@@ -502,7 +506,7 @@ pub fn run(ctx: &'static Ctx) -> (&'static str, Value, Vec<&'static str>) {
     }
     stats.count("download_scenarios", gets.len() as u64);
     let cov = stats.coverage(
-        "listings: bucket contents = all lists of 0..=2 objects (thorough: all triples; quick: every 7th) over a 10-name alphabet {plain, &, <>, quotes, é, 日本, 900-char, nested sub/NAME, ]]>, space} x 4 sizes (0, 1, 2^32, 2^64-1) x timestamp forms, plus near-miss keys that must be filtered, plus 999/1000/1001-object buckets; both listing entry points; max-keys {1,2,100}; response menu {normal, IsTruncated=true, size abc / -1 / 2^64, garbled XML, two element orders, empty body}; transport fragmentation: listing bodies delivered in two TCP writes cut at every continuation byte of the first non-ASCII characters and near the end, download bodies in 2 and 4 writes. downloads: names x sizes {0,1,6,4 KiB[,2 MiB]} x status {200,204,206,400,403,404,500,503} x Last-Modified {present, absent, malformed} x short body. non-trivial = scenario with a fault / non-200 / >=2 objects",
+        "listings: bucket contents = all lists of 0..=2 objects (thorough: all triples; quick: every 7th) over a 10-name alphabet {plain, &, <>, quotes, é, 日本, 900-char, nested sub/NAME, ]]>, space} x 4 sizes (0, 1, 2^32, 2^64-1) x timestamp forms, plus near-miss keys that must be filtered, plus 999/1000/1001-object buckets; both listing entry points; max-keys {1,2,100}; response menu {normal, IsTruncated=true, size abc / -1 / 2^64, garbled XML, two element orders, empty body, and three equivalent serialisations of the same listing: pretty-printed with whitespace text nodes, numeric character references, extra <Owner>/<ChecksumAlgorithm> child elements}; transport fragmentation: listing bodies delivered in two TCP writes cut at every continuation byte of the first non-ASCII characters and near the end, download bodies in 2 and 4 writes. downloads: names x sizes {0,1,6,4 KiB[,2 MiB]} x status {200,204,206,400,403,404,500,503} x Last-Modified {present, absent, malformed} x short body. non-trivial = scenario with a fault / non-200 / >=2 objects",
         true,
         json!({"list_faults": LIST_FAULTS, "statuses": STATUSES}),
     );
